@@ -26,7 +26,7 @@ ASSUMPTIONS = ["modelled fragment: scalar kinds, enums (open/closed), message-ty
                "oneof conflicts across option statements are rejected (documented divergence from protoc, protobuf issue 9125): spec follows the project",
                "float literals reach the model as the float64 the parser computed (decimal conversion is C14/C39); float32 rounding is modelled exactly"]
 
-CHKS = ["opt_chk_strict", "opt_chk_lenient", "opt_chk_unlinked", "spec_chk", "spec_chk_known"]
+CHKS = ["opt_chk_strict", CHK_LENIENT, CHK_UNLINKED, "spec_chk", "spec_chk_known"]
 DEFS = """
 (* A disagreement with the specification is attributed to fields without presence when the implementation
    behaves exactly like the mirror model and the mirror model agrees with the specification once every field
@@ -153,8 +153,8 @@ def run(ctx):
             ctx.violation("differs-from-protoc-spec", "implementation and protoc specification disagree: " + what,
                           {"proto": text, "files": c["files"], "observed": obs})
     for name, corr in (("opt_chk_strict", "options:interpretField/setOptionField/fieldValue (strict)"),
-                       ("opt_chk_lenient", "options:interpretOptions (lenient)"),
-                       ("opt_chk_unlinked", "options:interpretOptions (unlinked)")):
+                       (CHK_LENIENT, "options:interpretOptions (lenient)"),
+                       (CHK_UNLINKED, "options:interpretOptions (unlinked)")):
         for i in res[name]:
             klass, c, o = meta[i]
             ctx.corr_break(corr, {"proto": c["files"]["t.proto"], "files": c["files"]},
